@@ -151,6 +151,9 @@ def cases(tier):
                 i += 1
                 out.append({"b": b, "o": o, "t": t, "mol": mol, "outliers": outliers, "cart": cart, "n_rot": n_rot,
                             "n_dir": n_dir})
+                if mol == "CHFClBr" and outliers:
+                    out.append({"b": b, "o": o, "t": t, "mol": "CHFClBr_mirror", "outliers": outliers, "cart": cart,
+                                "n_rot": n_rot, "n_dir": 4})
                 if mol == "CHFClBr" and not outliers:
                     out.append({"b": b, "o": o, "t": t, "mol": mol, "outliers": outliers, "cart": not cart, "n_rot": 6,
                                 "n_dir": 5, "shift": [3.0, -2.0, 5.0]})
